@@ -127,6 +127,7 @@ func c08(p *core.Program, r *core.Report) {
 	strideRule(p, r, "stride-discipline", []strideTarget{{"", "(*Bounds).extendFlatCoords", "all"}})
 
 	overlapRule(p, r, "overlap-closed-intervals")
+	distinctStorageRule(p, r, "min-max-distinct-storage")
 	footprintRule(p, r, "coordinate-coverage", [][2]string{{"", "(*Bounds).extendFlatCoords"}})
 
 	r.Assume("tightness for all inputs, order independence and the closed-interval overlap semantics are not decided")
